@@ -97,9 +97,14 @@ func TestSim(t *testing.T) {
 		seed := *flagSeed + uint64(i)
 		fmt.Printf("BEGIN %d\n", seed)
 		cfg := profileConfig(*flagProfile, seed)
+		if *flagAllOracles {
+			cfg.Oracles = nil
+		}
 		res := Run(t, cfg, nil, *flagVerbose)
 		finish(res, *flagVerbose, seed%*flagSample == 0)
 		emit(res)
 		fmt.Printf("END %d\n", seed)
 	}
 }
+
+var flagAllOracles = flag.Bool("sim.all", false, "enable every oracle regardless of the profile (triage aid)")
